@@ -29,8 +29,11 @@ def run(c):
     if not b:
         return
     args = [b, "-out", c.build, "-seed", str(c.seed), "-tier", c.tier]
+    corpus = os.path.join(os.path.dirname(os.path.dirname(os.path.abspath(__file__))), "corpus", "c12_witnesses.json")
     if c.replay:
         args += ["-replay", c.replay]
+    elif os.path.exists(corpus):
+        args += ["-corpus", corpus]
     if c.tier != "quick":
         args += ["-par", "12"]
     rc, out = c.run(args, timeout=3000 if c.tier != "quick" else 600)
